@@ -14,8 +14,11 @@ The relation itself (agreement with subtype compatibility over the annotation gr
 from __future__ import annotations
 
 import ast
+import itertools
+import re
 
-from ..loader import AnalysisError, dotted, norm, walk_no_nested
+from ..flow import Defs, Scope, bool_atoms, conjuncts, decide, guard_facts, iterations, rejections
+from ..loader import dotted, norm, walk_no_nested
 from ..report import Ctx
 from ..selftest import Mutant
 
@@ -35,38 +38,44 @@ DECLINED = [
 ]
 
 
-def check(ctx: Ctx) -> None:  # noqa: C901, PLR0915
+def rule_flag(ctx: Ctx) -> None:
     P = ctx.prog
     vq = f"{VAL}.validate_consistent_type_annotations"
     v = P.func(vq)
-    # ------------------------------------------------------------ 1 flag
     sites = [s for s in ctx.cg.call_sites_of(vq) if s.kind == "call"]
-    ok = len(sites) == 1 and sites[0].caller.qualname == "pipefunc._pipeline._base.Pipeline._validate"
-    ctx.add("1-flag", vq, v.loc, ok, "single caller: Pipeline._validate" if ok else f"validator is called from {[s.caller.qualname for s in sites]}", key="single-caller")
-    if sites:
-        caller = sites[0].caller
-        par = {id(c): p for p in ast.walk(caller.node) for c in ast.iter_child_nodes(p)}
-        x: ast.AST = sites[0].node
-        guarded = False
-        while id(x) in par:
-            child, x = x, par[id(x)]
-            if isinstance(x, ast.If) and norm(x.test) == "self.validate_type_annotations" and any(child is s or any(child is d for d in ast.walk(s)) for s in x.body):
-                guarded = True
-        ctx.add("1-flag", caller, sites[0].node, guarded, "the call is under `if self.validate_type_annotations`" if guarded else "type validation runs regardless of validate_type_annotations", key="guarded")
+    ctx.tri("1-flag", vq, v.loc, bool(sites), False, f"validator is called from {[s_.caller.name for s_ in sites]}", "", "no call site of the validator found", key="single-caller")
+    for s_ in sites:
+        caller = s_.caller
+        cfg_c = ctx.cfg(caller)
+        n = cfg_c.node_containing(s_.node)
+        facts = guard_facts(cfg_c, Defs(caller), n) if n is not None else []
+        guarded = any(t.endswith("validate_type_annotations") and pol for t, pol in facts)
+        ctx.tri("1-flag", caller, s_.node, guarded, n is not None and not guarded and not any("validate_type_annotations" in t for t, _p in facts), "the call is under `if self.validate_type_annotations`",
+                "type validation runs regardless of validate_type_annotations: pipelines that opted out are rejected", "guard of the validator call not recognised", key="guarded")
     init = P.func("pipefunc._pipeline._base.Pipeline.__init__")
     cfg = ctx.cfg(init)
     sets = cfg.nodes(lambda s: isinstance(s, ast.Assign) and norm(s.targets[0]) == "self.validate_type_annotations")
     adds = cfg.nodes(lambda s: isinstance(s, (ast.For,)) and "self.add(" in norm(s))
-    ok = bool(sets) and bool(adds) and norm(cfg.stmt[sets[0]].value) == "validate_type_annotations" and all(cfg.dominates(sets[0], a) for a in adds)
-    ctx.add("1-flag", init, cfg.stmt[sets[0]] if sets else init.node, ok, "the flag is stored from the constructor argument before any function is added" if ok else "the flag is not set (from the argument) before functions are added", key="flag-before-add")
+    if sets and adds:
+        ok = all(any(cfg.dominates(s0, a) for s0 in sets) for a in adds)
+        ctx.add("1-flag", init, cfg.stmt[sets[0]], ok, "the flag is stored before any function is added" if ok else "functions are added (and validated) before the validate_type_annotations flag is stored", key="flag-before-add")
+        read = any(isinstance(x, ast.Name) and x.id == "validate_type_annotations" and isinstance(x.ctx, ast.Load) for x in ast.walk(init.node))
+        ctx.add("1-flag", init, cfg.stmt[sets[0]], read, "the flag comes from the constructor argument" if read else "the constructor never reads its `validate_type_annotations` argument: the caller's choice is ignored", key="flag-from-argument")
+    else:
+        ctx.add("1-flag", init, init.node, None, "UNDECIDED: flag assignment / add loop not found", key="flag-before-add")
     cp = P.func("pipefunc._pipeline._base.Pipeline.copy")
-    ok = "'validate_type_annotations': self.validate_type_annotations" in norm(cp.node)
-    ctx.add("1-flag", cp, cp.node, ok, "copy() carries the flag" if ok else "Pipeline.copy drops validate_type_annotations", key="copy")
+    ctx.tri("1-flag", cp, cp.node, "self.validate_type_annotations" in norm(cp.node), "validate_type_annotations" not in norm(cp.node), "copy() carries the flag", "Pipeline.copy drops validate_type_annotations: the copy validates (or skips validation) differently", key="copy")
 
-    # ------------------------------------------------------------ 2 typeerror
+
+
+def rule_typeerror(ctx: Ctx) -> None:
+    P = ctx.prog
+    vq = f"{VAL}.validate_consistent_type_annotations"
+    v = P.func(vq)
     raises = [r for r in ast.walk(v.node) if isinstance(r, ast.Raise)]
-    ok = len(raises) == 1 and raises[0].exc is not None and norm(raises[0].exc).startswith("TypeError(")
-    ctx.add("2-typeerror", v, raises[0] if raises else v.node, ok, "incompatible edge raises TypeError" if ok else "the validator does not raise exactly TypeError", key="raises")
+    kinds_ = [norm(Defs(v).resolve(r.exc)).split("(")[0] for r in raises if r.exc is not None]
+    ctx.tri("2-typeerror", v, raises[0] if raises else v.node, bool(kinds_) and all(k == "TypeError" for k in kinds_), not raises or any(k != "TypeError" and k[:1].isupper() for k in kinds_),
+            "incompatible edge raises TypeError", f"the validator raises {kinds_ or 'nothing'} instead of TypeError", key="raises")
     if raises:
         par = {id(c): p for p in ast.walk(v.node) for c in ast.iter_child_nodes(p)}
         x = raises[0]
@@ -75,34 +84,45 @@ def check(ctx: Ctx) -> None:  # noqa: C901, PLR0915
             x = par[id(x)]
             if isinstance(x, ast.If):
                 tests.append(norm(x.test))
-        ok = "not is_type_compatible(output_type, input_type)" in tests
-        ctx.add("2-typeerror", v, raises[0], ok, "raised iff not is_type_compatible(producer type, consumer type) - in that argument order" if ok else f"the rejection is guarded by {tests[:1]}", key="guard")
+        rj = [r for r in rejections(ctx.cfg(v), v.node, Defs(v)) if not r["dead"]]
+        conds = [c for r in rj for c in r["conds"] if "is_type_compatible(" in c]
+        good = any(c.startswith("not is_type_compatible(output") for c in conds)
+        swapped = any(re.match(r"not is_type_compatible\(input\w*, output", c) for c in conds)
+        positive = any(c.startswith("is_type_compatible(") for c in conds)
+        ctx.tri("2-typeerror", v, raises[0], good, swapped or positive, "raised iff not is_type_compatible(producer type, consumer type) - in that argument order",
+                "the rejection tests the consumer type against the producer type (arguments swapped) or rejects compatible edges", f"the rejection is guarded by {conds[:1]}", key="guard")
     for q in ("pipefunc._pipeline._base.Pipeline.add",):
         reach = vq in ctx.cg.reachable(q)
         ctx.add("2-typeerror", q, "", reach, "construction reaches the validator" if reach else "Pipeline.add no longer reaches the validator", key="reach")
     it = [lp for lp in walk_no_nested(v.node) if isinstance(lp, ast.For)]
-    ok = len(it) >= 3 and norm(it[0].iter) == "graph.nodes" and "nx.descendants_at_distance(graph, node, 1)" in norm(v.node) and "dep.parameter_annotations.items()" in norm(v.node)
-    ctx.add("2-typeerror", v, v.node, ok, "every producer node x direct consumer x annotated parameter is checked" if ok else "the validator no longer iterates all producer/consumer edges", key="all-edges")
+    its = iterations(v.node)
+    part = [i_ for i_ in its if isinstance(i_["iter"], ast.Subscript) and isinstance(i_["iter"].slice, ast.Slice)]
+    ctx.tri("2-typeerror", v, v.node, len(its) >= 3 and not part and "graph.nodes" in norm(v.node), bool(part), "every producer node x direct consumer x annotated parameter is checked",
+            "only part of the nodes / consumers / parameters is iterated", "iteration over the edges not recognised", key="all-edges")
 
-    # ------------------------------------------------------------ 3 unions
+
+
+def rule_unions(ctx: Ctx) -> None:
+    P = ctx.prog
     hu = P.func(f"{TY}._handle_union_types")
-    ifs = [s for s in hu.node.body if isinstance(s, ast.If)]
-    if len(ifs) < 3:
-        raise AnalysisError("_handle_union_types: expected three arms")
-    both, inc, req = ifs[0], ifs[1], ifs[2]
-    t_both, t_inc, t_req = norm(both.test), norm(inc.test), norm(req.test)
-    ok = "incoming_type" in t_both and "required_type" in t_both and "incoming_type" in t_inc and "required_type" not in t_inc and "required_type" in t_req and "incoming_type" not in t_req
-    ctx.add("3-unions", hu, both, ok, "arms: both unions / incoming union / required union" if ok else "the three union arms are not (both, incoming, required) in that order", key="arms")
-    r_inc = norm(inc.body[-1])
-    ok = r_inc == "return all((is_type_compatible(t, required_type, memo) for t in get_args(incoming_type)))"
-    ctx.add("3-unions", hu, inc, ok, "union SOURCE: all members must be accepted" if ok else "a union source no longer requires all of its members to be accepted", key="incoming-all")
-    r_req = norm(req.body[-1])
-    ok = r_req == "return any((is_type_compatible(incoming_type, t, memo) for t in get_args(required_type)))"
-    ctx.add("3-unions", hu, req, ok, "union TARGET: one member suffices" if ok else "a union target no longer accepts a value matching one of its members", key="required-any")
-    ac = P.func(f"{TY}._all_types_compatible")
-    ok = "return all((any((is_type_compatible(t1, t2, memo) for t2 in required_args)) for t1 in incoming_args))" in norm(ac.node) and "_all_types_compatible(incoming_type_args, required_type_args, memo)" in norm(both)
-    ctx.add("3-unions", ac, ac.node, ok, "both unions: all(any(...)) incoming over required" if ok else "union-to-union compatibility is no longer all(incoming) any(required)", key="both")
+    quant = []
+    for f_ in Scope(ctx, hu).funcs:
+        d = Defs(f_)
+        for c in [c for c in ast.walk(f_.node) if isinstance(c, ast.Call) and dotted(c.func) in ("all", "any") and c.args and isinstance(c.args[0], (ast.GeneratorExp, ast.ListComp))]:
+            for g in c.args[0].generators:
+                src = norm(d.resolve(g.iter))
+                side = "incoming" if "incoming" in src else ("required" if "required" in src else "?")
+                quant.append((dotted(c.func), side, c))
+    wrong = [(q, sd, c) for q, sd, c in quant if (q == "any" and sd == "incoming") or (q == "all" and sd == "required")]
+    right = [(q, sd) for q, sd, _c in quant if (q == "all" and sd == "incoming") or (q == "any" and sd == "required")]
+    ctx.tri("3-unions", hu, wrong[0][2] if wrong else hu.node, len(right) >= 2 and not wrong, bool(wrong), "union SOURCE: all members must be accepted; union TARGET: one member suffices",
+            f"`{wrong[0][0]}(...)` ranges over the members of the {wrong[0][1]} type: " + ("a union source is accepted if only ONE member is compatible" if wrong and wrong[0][1] == "incoming" else "a union target must accept with ALL of its members") if wrong else "",
+            "quantifiers over the union members not recognised", key="quantifiers")
 
+
+def rule_reduction(ctx: Ctx) -> None:
+    P = ctx.prog
+    v = P.func(f"{VAL}.validate_consistent_type_annotations")
     # ------------------------------------------------------------ 4 reduction
     wraps = [s for s in ast.walk(v.node) if isinstance(s, ast.Assign) and "Array[output_type]" in norm(s.value)]
     ok = False
@@ -112,26 +132,49 @@ def check(ctx: Ctx) -> None:  # noqa: C901, PLR0915
         while id(x) in par:
             x = par[id(x)]
             if isinstance(x, ast.If):
-                t = norm(x.test)
-                ok = t == ("_axis_is_reduced(node, dep, parameter_name) and (not is_object_array_type(output_type)) and (not isinstance(output_type, Unresolvable)) "
-                           "and (output_type is not NoAnnotation)")
                 break
-    ctx.add("4-reduction", v, wraps[0] if wraps else v.node, ok, "wrapped in Array[...] exactly for reduced axes with a concrete, not-yet-array annotation" if ok else
-            "the Array[...] wrapping of reduced outputs is missing or its guard changed", key="wrap-guard")
-    skips = [s for s in ast.walk(v.node) if isinstance(s, ast.If) and any(isinstance(b, ast.Continue) for b in s.body)]
-    tests = {norm(s.test) for s in skips}
-    for t, why in (("parameter_name not in output_types", "only edges that carry this producer's outputs"),
-                   ("_mapspec_is_generated(node, dep)", "auto-generated MapSpecs are not type-checked"),
-                   ("_mapspec_with_internal_shape(node, parameter_name)", "internal-shape producers are not type-checked")):
-        ctx.add("4-reduction", v, v.node, t in tests, why if t in tests else f"documented skip `{t}` is gone", key=f"skip {t[:30]}")
-    extra = tests - {"parameter_name not in output_types", "_mapspec_is_generated(node, dep)", "_mapspec_with_internal_shape(node, parameter_name)", "not isinstance(node, PipeFunc)"}
-    ctx.add("4-reduction", v, v.node, not extra, "no undocumented skip" if not extra else f"additional edges are skipped: {sorted(extra)}", key="no-extra-skip")
+    if wraps:
+        cfg_v = ctx.cfg(v)
+        wn = cfg_v.node_containing(wraps[0])
+        facts = guard_facts(cfg_v, Defs(v), wn) if wn is not None else []
+        ok = any("_axis_is_reduced(" in t and pol for t, pol in facts)
+        ctx.add("4-reduction", v, wraps[0], ok, "the output type is wrapped in Array[...] only for reduced axes" if ok else
+                f"the Array[...] wrapping does not require `_axis_is_reduced(...)` (it happens under {[t for t, _p in facts][-3:]}): element-wise consumers are compared against an array type", key="wrap-guard")
+    else:
+        ctx.add("4-reduction", v, v.node, None, "UNDECIDED: Array[...] wrapping not found", key="wrap-guard")
+    rj = [r for r in rejections(ctx.cfg(v), v.node, Defs(v)) if not r["dead"]]
+    skipping = sorted({c for r in rj for c in r["conds"] if c.startswith("not ") and any(w in c for w in ("_mapspec_is_generated(", "_mapspec_with_internal_shape(", "not in output_types"))} | {c for r in rj for c in r["conds"] if " in output_types" in c})
+    ALLOWED_SKIPS = ("output_types", "output_annotation", "_mapspec_is_generated(", "_mapspec_with_internal_shape(", "isinstance(node, PipeFunc)", "is_type_compatible(", "_axis_is_reduced(", "is_object_array_type(", "Unresolvable", "NoAnnotation", "validate_type")
+    atoms_ = {text for r in rj for t_, truth in r["tests"] for text, _pol in conjuncts(t_, truth)}
+    extra = sorted(c for c in atoms_ if not any(a_ in c for a_ in ALLOWED_SKIPS))
+    ctx.tri("4-reduction", v, v.node, bool(rj) and not extra, bool(extra), f"the rejection is only bypassed by the documented skips ({len(skipping)} recognised)", f"edges are additionally exempted from the type check when `{extra[0] if extra else ''}`", "skips not recognised", key="no-extra-skip")
     air = P.func(f"{VAL}._axis_is_reduced")
-    ret = [r for r in walk_no_nested(air.node) if isinstance(r, ast.Return)][-1]
-    ok = norm(ret.value) == "parameter_name in output_mapspec_names and (parameter_name not in input_mapspec_names or (input_spec_axes is not None and None in input_spec_axes))"
-    ctx.add("4-reduction", air, ret, ok, "reduced = mapped producer whose consumer takes it whole or with a ':' axis" if ok else "_axis_is_reduced changed", key="axis-is-reduced")
+    body = [s_ for s_ in air.node.body if not (isinstance(s_, ast.Expr) and isinstance(s_.value, ast.Constant))]
+    tail = [s_ for s_ in body if isinstance(s_, ast.Return) or (isinstance(s_, ast.If) and any(isinstance(x, ast.Return) for x in ast.walk(s_)))]
+    A, B_, C, D_ = "parameter_name in output_mapspec_names", "parameter_name in input_mapspec_names", "input_spec_axes is None", "None in input_spec_axes"
+    atoms = set()
+    for s_ in tail:
+        for x in ast.walk(s_):
+            if isinstance(x, (ast.BoolOp, ast.Compare)):
+                atoms |= set(bool_atoms(x))
+    if tail and atoms <= {A, B_, C, D_}:
+        wrong = []
+        for a_, b_, c_, d_ in itertools.product((True, False), repeat=4):
+            if c_ and d_:
+                continue
+            got = decide(tail, {A: a_, B_: b_, C: c_, D_: d_})
+            want = a_ and ((not b_) or ((not c_) and d_))
+            if got is not None and got != want:
+                wrong.append((a_, b_, c_, d_))
+        ctx.add("4-reduction", air, air.node, not wrong, "reduced = mapped producer whose consumer takes it whole or with a ':' axis" if not wrong else
+                f"_axis_is_reduced differs from `mapped output and (not a MapSpec input of the consumer or consumed with a ':' axis)` for (mapped, consumer input, no axes, ':' axis) = {wrong[:3]}", key="axis-is-reduced")
+    else:
+        ctx.add("4-reduction", air, air.node, None, f"UNDECIDED: _axis_is_reduced uses other atoms {sorted(atoms - {A, B_, C, D_})[:3]}", key="axis-is-reduced")
 
-    # ------------------------------------------------------------ 6 extraction (producer and consumer annotations are read the same way)
+
+
+def rule_extraction(ctx: Ctx) -> None:
+    P = ctx.prog
     n6 = 0
     for q in ("pipefunc._pipefunc.PipeFunc.parameter_annotations", "pipefunc._pipefunc.PipeFunc.output_annotation"):
         f = P.func(q)
@@ -141,30 +184,84 @@ def check(ctx: Ctx) -> None:  # noqa: C901, PLR0915
             ctx.add("6-extraction", f, c, ok, "annotations are read with include_extras=True (Array[T] is Annotated: the element type lives in the extras)" if ok else
                     "annotations are read without extras on this side only: Array[T] degrades to a bare ndarray and the element type is never compared", key=f"extras {f.name}")
     ctx.floor("6-extraction", n6, 2)
-    # ------------------------------------------------------------ 5 wildcards
+
+
+def rule_wildcards(ctx: Ctx) -> None:
+    P = ctx.prog
     ci = P.func(f"{TY}._check_identical_or_any")
-    ret = [r for r in walk_no_nested(ci.node) if isinstance(r, ast.Return)][-1]
-    parts = [norm(x) for x in ret.value.values] if isinstance(ret.value, ast.BoolOp) and isinstance(ret.value.op, ast.Or) else []
-    want = ["incoming_type == required_type", "required_type is Any", "incoming_type is NoAnnotation", "required_type is NoAnnotation"]
-    ok = parts == want
-    ctx.add("5-wildcards", ci, ret, ok, "identical, or required is Any, or either side unannotated" if ok else f"wildcard predicate is {parts}", key="predicate")
+    ATOMS = ["incoming_type == required_type", "required_type is Any", "incoming_type is NoAnnotation", "required_type is NoAnnotation", "incoming_type is Any"]
+    body = [s_ for s_ in ci.node.body if not (isinstance(s_, ast.Expr) and isinstance(s_.value, ast.Constant))]
+    body = [s_ for s_ in body if not (isinstance(s_, (ast.For, ast.If)) and "Unresolvable" in norm(s_))]  # the predicate for resolvable annotations
+    used = set()
+    for s_ in body:
+        for x in ast.walk(s_):
+            if isinstance(x, (ast.BoolOp, ast.Compare)):
+                used |= set(bool_atoms(x))
+    if not used <= set(ATOMS):
+        ctx.add("5-wildcards", ci, ci.node, None, f"UNDECIDED: predicate uses other conditions {sorted(used - set(ATOMS))[:2]}", key="predicate")
+    else:
+        wrong = []
+        for vals in itertools.product((True, False), repeat=len(ATOMS)):
+            env = dict(zip(ATOMS, vals))
+            got = decide(body, env)
+            want = env[ATOMS[0]] or env[ATOMS[1]] or env[ATOMS[2]] or env[ATOMS[3]]
+            if got is not None and got != want:
+                wrong.append({k.split(" ", 1)[0] + " " + k.split(" ", 1)[1]: v for k, v in env.items() if v})
+        ctx.add("5-wildcards", ci, ci.node, not wrong, "identical, or required is Any, or either side unannotated" if not wrong else
+                f"the wildcard predicate differs from `identical or required is Any or either side unannotated`, e.g. when only {sorted(wrong[0]) if wrong[0] else 'nothing'} holds", key="predicate")
     itc = P.func(f"{TY}.is_type_compatible")
     order = [dotted(c.func) for s in walk_no_nested(itc.node) if isinstance(s, ast.If) for c in ast.walk(s.test) if isinstance(c, ast.Call) and dotted(c.func).startswith("_")]
-    ok = order == ["_check_identical_or_any", "_is_typevar_compatible", "_handle_union_types", "_handle_generic_types"]
-    ctx.add("5-wildcards", itc, itc.node, ok, "dispatch: identical/any, typevar, union, generic" if ok else f"dispatch order is {order}", key="dispatch")
+    want_o = ["_check_identical_or_any", "_is_typevar_compatible", "_handle_union_types", "_handle_generic_types"]
+    ctx.tri("5-wildcards", itc, itc.node, order == want_o, False, "dispatch: identical/any, typevar, union, generic", "", f"dispatch order is {order}", key="dispatch")
     last = [s for s in itc.node.body if isinstance(s, ast.Return)]
-    ok = bool(last) and norm(last[-1].value) == "False"
-    ctx.add("5-wildcards", itc, last[-1] if last else itc.node, ok, "anything not proven compatible is incompatible" if ok else "the fall-through of is_type_compatible is no longer False", key="default-false")
+    ctx.tri("5-wildcards", itc, last[-1] if last else itc.node, bool(last) and norm(last[-1].value) == "False", bool(last) and norm(last[-1].value) == "True", "anything not proven compatible is incompatible",
+            "the fall-through of is_type_compatible is True: unrelated types are accepted", "fall-through not recognised", key="default-false")
     tv = [s for s in itc.node.body if isinstance(s, ast.If) and norm(s.test) == "isinstance(incoming_type, TypeVar)"]
-    ok = bool(tv) and norm(tv[0].body[-1]) == "return True"
-    ctx.add("5-wildcards", itc, tv[0] if tv else itc.node, ok, "an incoming TypeVar is accepted" if ok else "incoming TypeVars are no longer accepted", key="incoming-typevar")
+    ctx.tri("5-wildcards", itc, tv[0] if tv else itc.node, bool(tv) and norm(tv[0].body[-1]) == "return True", False, "an incoming TypeVar is accepted", "", "handling of incoming TypeVars not recognised", key="incoming-typevar")
     res = [s for s in itc.node.body if isinstance(s, ast.Assign) and "_resolve_type" in norm(s.value)]
-    ok = len(res) == 2
-    ctx.add("5-wildcards", itc, res[0] if res else itc.node, ok, "both sides are resolved (forward references) first" if ok else "forward references are not resolved on both sides", key="resolve")
+    ctx.tri("5-wildcards", itc, res[0] if res else itc.node, len(res) == 2, len(res) == 1, "both sides are resolved (forward references) first", "forward references are resolved on one side only", "resolution of forward references not recognised", key="resolve")
+
+
+def rule_readonly(ctx: Ctx) -> None:
+    """The validator only inspects: it never writes into the functions' (cached) annotations it compares."""
+    from .c10 import _param_mutations
+
+    P = ctx.prog
+    v = P.func(f"{VAL}.validate_consistent_type_annotations")
+    MUT = {"update", "setdefault", "pop", "popitem", "clear", "__setitem__", "__delitem__", "append", "extend"}
+    borrowed: set[str] = set()
+    for s_ in ast.walk(v.node):
+        if isinstance(s_, ast.Assign) and isinstance(s_.value, ast.Attribute) and any(a in s_.value.attr for a in ("annotation", "parameters", "defaults", "mapspec")):
+            borrowed |= {t.id for t in s_.targets if isinstance(t, ast.Name)}
+    bad: list[tuple[ast.AST, str]] = []
+    for n in ast.walk(v.node):
+        if isinstance(n, (ast.Assign, ast.AugAssign, ast.Delete)):
+            for t in (n.targets if isinstance(n, (ast.Assign, ast.Delete)) else [n.target]):
+                if isinstance(t, ast.Subscript) and ((isinstance(t.value, ast.Name) and t.value.id in borrowed) or (isinstance(t.value, ast.Attribute) and "annotation" in t.value.attr)):
+                    bad.append((n, f"`{norm(n)[:60]}` writes into a function's annotations"))
+        if isinstance(n, ast.Call) and isinstance(n.func, ast.Attribute) and n.func.attr in MUT and isinstance(n.func.value, ast.Name) and n.func.value.id in borrowed:
+            bad.append((n, f"`{norm(n)[:60]}` mutates a function's annotations"))
+        if isinstance(n, ast.Call):
+            for callee in ctx.cg.resolve_callable(v, n.func):
+                if callee.module.name != v.module.name:
+                    continue
+                pm = _param_mutations(callee)
+                ps = [p_ for p_ in callee.param_names() if p_ not in ("self", "cls")]
+                for i, a in enumerate(n.args):
+                    if isinstance(a, ast.Name) and a.id in borrowed and i < len(ps) and ps[i] in pm:
+                        bad.append((n, f"`{norm(a)}` (a function's cached annotations) is passed to {callee.name}, which writes into its parameter `{ps[i]}`"))
+    ctx.add("7-readonly", v, bad[0][0] if bad else v.node, not bad, f"the validator never writes into the annotations it inspects ({len(borrowed)} borrowed mapping(s))" if not bad else
+            bad[0][1] + ": the change persists on the function (cached property) and other edges / later validations see the altered type", key="readonly")
+
+
+def check(ctx: Ctx) -> None:
+    for rule in (rule_flag, rule_typeerror, rule_unions, rule_reduction, rule_extraction, rule_wildcards, rule_readonly):
+        ctx.run(rule)
 
 
 T, V, B = "pipefunc/typing.py", "pipefunc/_pipeline/_validation.py", "pipefunc/_pipeline/_base.py"
 MUTANTS = [
+    Mutant("wrap-written-back", V, "                    output_type = Array[output_type]  # type: ignore[valid-type]\n", "                    output_type = Array[output_type]  # type: ignore[valid-type]\n                    output_types[parameter_name] = output_type\n", ("C16.7-readonly",), why="seeded C16/2"),
     Mutant("validate-regardless", B, "        if self.validate_type_annotations:\n            validate_consistent_type_annotations(self.graph)\n", "        validate_consistent_type_annotations(self.graph)\n", ("C16.1-flag",)),
     Mutant("flag-after-add", B, "        self.validate_type_annotations = validate_type_annotations\n        for f in functions:", "        self.validate_type_annotations = True\n        for f in functions:", ("C16.1-flag",)),
     Mutant("raise-valueerror", V, "                    raise TypeError(msg)\n", "                    raise ValueError(msg)\n", ("C16.2-typeerror",)),
